@@ -605,6 +605,11 @@ class Exec:
             segs = M.strip_generics(path).split('::')
             if len(segs) >= 2 and segs[-2] in self.variants and segs[-1] in self.variants[segs[-2]]:
                 return Enum(segs[-2], self.vdisc(segs[-2], segs[-1]), {segs[-1]: vals})
+            if lhs is not None:
+                # struct-like enum variants are sometimes printed without the enum path (`Unary { op: .., expr: .. }`): decide by the destination type
+                lt = ty_last(self.place_type(fr, lhs))
+                if lt in self.variants and segs[-1] in self.variants[lt]:
+                    return Enum(lt, self.vdisc(lt, segs[-1]), {segs[-1]: vals})
             h = self.struct_hook(ty_last(path), [n for n, _ in rv[2]], vals)
             if h is not None: return h
             return vals
